@@ -41,7 +41,8 @@ from vivarium.library.topology import (
     inverse_topology,
     normalize_path,
 )
-from vivarium.library.dict_utils import apply_func_to_leaves
+from vivarium.library.dict_utils import (
+    apply_func_to_leaves, deep_copy_internal, deep_merge)
 from vivarium.core.types import (
     HierarchyPath, Topology, State, Update, Processes, Steps,
     Flow, Schema)
@@ -528,7 +529,12 @@ class Engine:
                 self.steps = composite['steps']
                 self.flow = composite['flow']
                 self.topology = composite['topology']
-                self.initial_state = composite['state'] or self.initial_state
+                # the state the composite brings and the initial state
+                # given to the engine are both part of the initial state
+                # (the composite's wins where both name a variable)
+                self.initial_state = deep_merge(
+                    deep_copy_internal(self.initial_state or {}),
+                    deep_copy_internal(composite['state']))
             else:
                 raise ValueError(
                     'load either composite, store, or '
